@@ -59,6 +59,7 @@ def run(chk: harness.Check):
     d2_inserts(chk, F, regions)
     d5_empty_best(chk, F)
     d6_alias_carry_over(chk, F)
+    d7_reindex_order(chk, F)
     d3_shipped(chk)
     d4_build_keys(chk)
 
@@ -156,6 +157,35 @@ def d6_alias_carry_over(chk, F):
         if (callee_key(t) or "").endswith("join_alias_vec"):
             chk.fail("C16.D6-alias-carry-over", "update_expanded_units|join", f.where(b),
                      "update_expanded_units re-joins aliases with a precedence: an `override` extend of the parent unit would drop the aliases of its generated units")
+
+
+def d7_reindex_order(chk, F):
+    """apply_extend_groups re-indexes an edited unit: its OLD keys must leave the index before names / symbols /
+    aliases change (remove_unit_rec dominates every edit, and no edit can be followed by it in the same iteration),
+    and the unit is added back afterwards."""
+    fs = F.find("convert::builder::apply_extend_groups")
+    if len(fs) != 1:
+        chk.fail("anchor-missing", "apply_extend_groups", "", "anchor-missing: apply_extend_groups not found")
+        return
+    f = fs[0]
+    rem = [b for b, t in f.calls() if (callee_key(t) or "").endswith("UnitIndex>::remove_unit_rec")]
+    edits = [b for b, t in f.calls() if (callee_key(t) or "").endswith("builder::join_alias_vec")]
+    adds = [b for b, t in f.calls() if (callee_key(t) or "").endswith("UnitIndex>::add_unit")]
+    heads = [b for b, t in f.calls() if (callee_key(t) or "").endswith("Iterator>::next") or (callee_key(t) or "").endswith("Iterator::next")]
+    if len(rem) != 1 or not edits or not adds:
+        chk.fail("C16.D7-reindex-order", "apply_extend_groups|shape", f"{f.file}:{f.line}",
+                 f"apply_extend_groups must remove the unit from the index once, edit it, and add it back (remove {len(rem)}, edits {len(edits)}, add {len(adds)})")
+        return
+    r = rem[0]
+    ok_before = all(f.node_dominates(r, e) for e in edits)
+    ok_not_after = all(r not in f.reach_from(e, removed_nodes=heads) for e in edits)
+    ok_add = all(any(a in f.reach_from(e, removed_nodes=heads) for a in adds) for e in edits)
+    chk.expect(ok_before and ok_not_after, "C16.D7-reindex-order", "apply_extend_groups|remove before edit", f.where(r),
+               "the unit's index entries are removed after (or not before) its names/symbols/aliases are edited: the old keys stay in the index and "
+               "the new keys are removed instead, so key collisions are accepted and stale keys keep resolving",
+               sample=f"{f.where(r)}: remove_unit_rec dominates every join_alias_vec and cannot follow one within an iteration")
+    chk.expect(ok_add, "C16.D7-reindex-order", "apply_extend_groups|re-add after edit", f.where(adds[0]),
+               "an edited unit is not added back to the index after the edit", sample=f"{f.where(adds[0])}: add_unit reachable after every edit")
 
 
 def recv_name(f, op):
